@@ -4,4 +4,5 @@ let table = [
   "retry_kernel", RetryKernel.run_line;
   "mapfut", MapFut.accept;
   "comb", Comb.accept;
+  "stack", Stack.run_line;
 ]
